@@ -68,6 +68,30 @@ fn shapes<T: Real>(fft: &Arc<dyn Fft<T>>, tag: &str, n: usize, rep: &mut Report)
     }
 }
 
+/// an EMPTY input with a non-empty output: the lengths differ, so the two-buffer entry points must panic (n >= 1)
+fn empty_input<T: Real>(fft: &Arc<dyn Fft<T>>, tag: &str, n: usize, rep: &mut Report) {
+    if n == 0 {
+        return;
+    }
+    let advs = [fft.get_inplace_scratch_len(), fft.get_outofplace_scratch_len(), fft.get_immutable_scratch_len()];
+    for entry in 1..3usize {
+        for o in [1usize, n] {
+            rep.evaluations += 1;
+            let r = catch(|| {
+                let mut a = zeros::<T>(0);
+                let mut b = zeros::<T>(o);
+                let mut sc = zeros::<T>(advs[entry]);
+                match entry {
+                    1 => fft.process_outofplace_with_scratch(&mut a, &mut b, &mut sc),
+                    _ => fft.process_immutable_with_scratch(&a, &mut b, &mut sc),
+                }
+            });
+            let name = ["process_with_scratch", "process_outofplace_with_scratch", "process_immutable_with_scratch"][entry];
+            judge(rep, tag, name, 0, o, 0, false, &r);
+        }
+    }
+}
+
 fn judge(rep: &mut Report, tag: &str, entry: &str, d: usize, o: usize, sclass: usize, well: bool, outcome: &Result<(), String>) {
     let panicked = outcome.is_err();
     let sname = match sclass {
@@ -102,7 +126,8 @@ fn one<T: Real>(kind: Kind, n: usize, dir: FftDirection, rep: &mut Report) {
             if n >= 2 {
                 rep.nontrivial += 1;
             }
-            shapes(&fft, &tag, n, rep)
+            shapes(&fft, &tag, n, rep);
+            empty_input(&fft, &tag, n, rep)
         }
     }
 }
